@@ -37,6 +37,8 @@ class ErrGen(H.Gen):
             s, d = r.choice(es)
             y = r.random()
             if y < 0.25:
+                if r.random() < 0.35:     # the edge named the other way round (found for symmetric types by some lookups, not by others)
+                    s, d = d, s
                 return ('change_edge_type', s, d, '->')
             if y < 0.45:
                 return ('add_edge', (d, None), (s, None), self.ety(), self.meta(), True, 'ids')
